@@ -22,7 +22,7 @@ from harness import solvermodel as sm
 from harness.checks import c02
 from harness.core import Cut, F
 
-PROPS_MODULES = ["Pdq.Props.C03", "Pdq.Props.C02"]
+PROPS_MODULES = ["Pdq.Props.C03", "Pdq.Props.C03Order", "Pdq.Props.C02"]
 LEVEL = "proof"
 TOL = 1e-9
 
@@ -33,13 +33,17 @@ def smoother_refine(ctx, cfg, d, field, u0s, t0, hs):
 
     objs = sm.build(cfg, field, u0s, t0)
     solver, prior = objs["solver"], objs["prior"]
-    stepper = sm.ModelStepper(ctx, cfg, field, d, c02.lam_of(cfg, d))
+    stepper = sm.ModelStepper(ctx, cfg, field, d, c02.lam_of(cfg, d), prior=prior)
     state = solver.init(jnp.asarray(t0), prior, damp=cfg.damp)
     t = F(t0)
     case = c02.case_of(cfg, field, u0s, t0, hs)
     for i, h in enumerate(hs):
         new = solver.step(state, dt=jnp.asarray(h), damp=cfg.damp)
         s0 = sm.state_slices(cfg, state)
+        if not sm.state_is_finite(new):
+            sig, why = sm.nonfinite_signature(ctx, cfg, stepper, s0, t, F(h))
+            ctx.violation(sig, why, dict(case, step=i))
+            return objs if "objs" in dir() else None
         ov = None
         if cfg.solver.startswith("dynamic"):
             osq = np.atleast_1d(np.asarray(new.output_scale, dtype=np.float64))
@@ -110,6 +114,19 @@ def closed_loop_finalize(ctx, cfg, sol, case, sigp, exact_hit):
             seed = term[j]
         post1 = {"mean": seed[0], "cov": seed[1], "bw": sm.ident_pcond(n)}
         bws = [conds[i][j] for i in range(N - 2, -1, -1)]
+        # cancellation guard: when a stored gain is huge (degenerate reversal, e.g. exactly zero innovation variance) the
+        # backward mean A x + b is the difference of huge numbers and is not determined by the float data
+        amp = 1.0
+        for i, b_ in enumerate(bws):
+            A_, b0_, _Q = sm.den_float(b_)
+            x_ = sm.tofloat(us[N - 1 - i][j][0])
+            num = float(np.max(np.abs(A_) @ np.abs(x_) + np.abs(b0_)))
+            den = float(np.max(np.abs(sm.tofloat(us[N - 2 - i][j][0])))) + float(np.sqrt(np.max(sm.tofloat(np.array([fil[N - 2 - i][j][1][a, a] for a in range(n)], dtype=object)))))
+            if num > 0:
+                amp = max(amp, num / den if den > 0 else float("inf"))
+        if not amp < 1e6:
+            ctx.skip("closed-loop finalisation: stored backward gain amplifies rounding by >= 1e6 (degenerate reversal)")
+            continue
         args = []
         for b in bws:
             args += sm.pc_args(b)
@@ -117,7 +134,12 @@ def closed_loop_finalize(ctx, cfg, sol, case, sigp, exact_hit):
         for i in range(N - 1, -1, -1):
             mm, mc = ans.take(n), ans.take(n, n)
             sv = np.array([fil[i][j][1][a, a] + (fil[i][j][0][a] * Fraction(1, 10**10)) ** 2 + Fraction(1, 10**60) for a in range(n)], dtype=object)
-            dm = sm._dev_vec(us[i][j][0], mm, np.abs(sm.tofloat(mm)) + np.sqrt(sm.tofloat(sv)))
+            # natural magnitude of the summands of the backward mean A x + b (rounding is relative to it)
+            nat = np.zeros(n)
+            if i < N - 1:
+                A_, b0_, _Q = sm.den_float(conds[i][j])
+                nat = np.abs(A_) @ np.abs(sm.tofloat(us[i + 1][j][0])) + np.abs(b0_)
+            dm = sm._dev_vec(us[i][j][0], mm, np.abs(sm.tofloat(mm)) + np.sqrt(sm.tofloat(sv)) + nat)
             dc = sm._dev_cov(us[i][j][1], mc, sv)
             c = dict(case, time_index=i, slice=j)
             ctx.dev("finalize.mean", dm, 1e-8, case=c, sig=f"{sigp}:smoothed-mean", what=f"smoothed mean at index {i} deviates {dm:.2e} from the backward recursion of the stored conditionals")
@@ -144,7 +166,7 @@ def fixed_grid(ctx, cfg, d, field, u0s, t0, hs, open_loop):
     if not open_loop:
         return
     # open loop: model trajectory in exact arithmetic, then solveFixedGridSmoothed
-    stepper = sm.ModelStepper(ctx, cfg, field, d, c02.lam_of(cfg, d))
+    stepper = sm.ModelStepper(ctx, cfg, field, d, c02.lam_of(cfg, d), prior=prior)
     state0 = solver.init(jnp.asarray(t0), prior, damp=cfg.damp)
     ms = sm.state_slices(cfg, state0)
     aux = (([Fraction(0)] * d if cfg.fact == "bd" else Fraction(0)), Fraction(0)) if cfg.solver.startswith("mle") else None
@@ -235,8 +257,11 @@ def fixedpoint_vs_fixedinterval(ctx, cfg, d, field, u0s, t0, t1, tol):
     cps = []
     for a, b in zip(ts[:-1], ts[1:]):
         if b < t1 and ctx.rng.random() < 0.6:
-            cps.append(float(a + (b - a) * ctx.rng.uniform(0.2, 0.8)))
-    cps = [c_ for c_ in cps if t0 < c_ < t1][:4]
+            # one, two or three checkpoints strictly inside the same step
+            k = int(ctx.rng.integers(1, 4))
+            cps += sorted(float(a + (b - a) * x) for x in ctx.rng.uniform(0.1, 0.9, size=k))
+    cps = [c_ for c_ in cps if t0 < c_ < t1][:6]
+    ctx.count(f"fp-vs-fi checkpoints={len(cps)}")
     if not cps:
         return
     save_at = jnp.asarray([t0, *cps, t1])
@@ -249,7 +274,7 @@ def fixedpoint_vs_fixedinterval(ctx, cfg, d, field, u0s, t0, t1, tol):
         for j, ((ma, Ca), (mb, Cb)) in enumerate(zip(a, b)):
             n = len(ma)
             sv = np.array([Ca[i, i] + Cb[i, i] + (ma[i] * Fraction(1, 10**8)) ** 2 + Fraction(1, 10**60) for i in range(n)], dtype=object)
-            dm = sm._dev_vec(mb, ma, np.abs(sm.tofloat(ma)) + np.sqrt(sm.tofloat(sv)))
+            dm = sm._dev_vec(mb, ma, np.abs(sm.tofloat(ma)) + np.sqrt(sm.tofloat(sv)) + 1e-6 * np.max(np.abs(sm.tofloat(ma)), initial=0.0))
             dc = sm._dev_cov(Cb, Ca, sv)
             ctx.dev("fp-vs-fi.mean", dm, 1e-6, case=dict(case, checkpoint=tc), sig=f"fp-vs-fi:{cfg.fact}:{cfg.solver}:{cfg.lin}:mean", what=f"fixed-point checkpoint mean differs from fixed-interval off-grid marginal by {dm:.2e}")
             ctx.dev("fp-vs-fi.cov", dc, 1e-5, case=dict(case, checkpoint=tc), sig=f"fp-vs-fi:{cfg.fact}:{cfg.solver}:{cfg.lin}:cov", what=f"fixed-point checkpoint covariance differs from fixed-interval off-grid marginal by {dc:.2e}")
@@ -278,7 +303,7 @@ def run(ctx):
     )
     ctx.assumptions += ["as C02; smoothed moments are judged relative to the filtering variances at the same node"]
     corpus(ctx)
-    n = ctx.n(12, 150)
+    n = ctx.n(10, 150)
     for it in range(n):
         strat = ["fixedinterval", "fixedpoint"][it % 2]
         cfg, d, order = c02.random_config(ctx, strat, it // 2)
@@ -296,7 +321,7 @@ def run(ctx):
         if it % 4 == 0:
             import dataclasses
 
-            cfa = dataclasses.replace(cfg, strategy="fixedinterval", q=min(cfg.q, 4), init="exact", damp=0.0)
+            cfa = dataclasses.replace(cfg, strategy="fixedinterval", q=min(cfg.q, 4), init="exact", damp=0.0, constraint_init=False, diffuse=0, prior="iwp")
             fld = problems.random_field(ctx.rng, d, order, max_degree=1, linear=True)
             tol = float(10.0 ** ctx.rng.uniform(-5, -2))
             t1 = t0 + float(gen.pick(ctx.rng, [0.5, 1.0, 0.75]))
